@@ -1033,6 +1033,12 @@ def fam_async_placements(tier: str, rng: random.Random) -> Iterator[dict]:
                 assert p is not None
                 p["snp"][0]["rv"] = rv
                 yield p
+            # the captured VALUE is an awaitable object (a future to be remembered): it is not awaited by the capture
+            for nsnap in (1, 2):
+                p = member_prog(kind, False, [], 1, nsnap, [], [True], ["default"], False, owner_async, tag="async-cap-avalue")
+                assert p is not None
+                p["snp"][0]["rv"] = "avalue"
+                yield p
             # two or three snapshots of different flavours: they are captured in the order of their declaration
             for rvs in itertools.product(("bool", "corofn", "coro"), repeat=2):
                 if not owner_async and "corofn" in rvs:
